@@ -105,12 +105,18 @@ OPS = {
     "repeated-heavy-pred": lambda a, b: (lambda y: _xp().multiply(y, y))(_xp().add(a, b)),
     "repeated-heavy-pred-3": lambda a, b: (lambda y: _xp().add(_xp().multiply(y, y), y))(_xp().subtract(a, b)),
     "slice-step-offset": lambda a: a[::2, 10:],
+    # linear chains whose first operation is the heavy one (for the legacy optimizer's two-op fusion)
+    "negative-of-repeat": lambda a: _xp().negative(_xp().repeat(a, 4, axis=0)),
+    "abs-of-widening": lambda a: _xp().abs(_xp().astype(_xp().astype(a, _xp().float32), _xp().float64)),
     "store": "store",
     "random": "random",
 }
 QUICK = ["negative", "add", "where", "sum-axis0", "mean-axis1", "var-axis0", "argmax", "cumsum-axis1", "transpose", "concat", "stack", "slice-step",
          "index-array", "roll", "repeat", "reshape", "rechunk", "matmul", "qr", "map_blocks", "chain5-fusable", "diamond-fusable", "fan-in3",
-         "reduce-of-chain", "tril", "pad", "unstack", "store", "mean-axis0", "repeated-heavy-pred", "repeated-heavy-pred-3", "argmax-axis1", "slice-step-offset"]
+         "reduce-of-chain", "tril", "pad", "unstack", "store", "mean-axis0", "repeated-heavy-pred", "repeated-heavy-pred-3", "argmax-axis1", "slice-step-offset",
+         "negative-of-repeat"]
+# operations also measured under the legacy optimizer (optimize_function=simple_optimize_dag): optimize = "legacy"
+LEGACY = ["negative", "chain5-fusable", "negative-of-repeat", "abs-of-widening", "astype-f4"]
 
 
 def measure(item):
@@ -167,7 +173,11 @@ def measure(item):
                 recs.append((opname, i, peak - base))
 
             ex = ControlledExecutor(world=w, task_wrapper=wrapper)
-            cubed.compute(*out, executor=ex, optimize_graph=optimize, _return_in_memory_array=False)
+            okw = {}
+            if optimize == "legacy":
+                from cubed.core.optimization import simple_optimize_dag
+                okw = dict(optimize_function=simple_optimize_dag)
+            cubed.compute(*out, executor=ex, optimize_graph=bool(optimize), _return_in_memory_array=False, **okw)
             proj = {o.name: o.node["primitive_op"].projected_mem for o in ex.ops}
             kinds = {o.name: o.node.get("op_name") for o in ex.ops}
             inter._store_dict.clear()
@@ -220,7 +230,7 @@ def run(ctx):
     items = []
     for n in names:
         for geom in GEOMS:
-            for opt in (True, False):
+            for opt in (True, False) + (("legacy",) if n in LEGACY else ()):
                 items.append((n, geom, "float64", "auto", opt))
             if geom == "wide" and n in ("mean-axis0", "var-axis0", "sum-axis0", "argmax", "sum-int32", "nanmean"):
                 items.append((n, geom, "float32", "auto", False))
